@@ -76,7 +76,7 @@ TECH = "Lean 4 theorem (induction over operation histories / invariants) + per-s
 
 PROPS = {
     "C01": {
-        "lean_modules": ["Cachelito.Props.C01", "Cachelito.Props.C01b", "Cachelito.Props.C01c", "Cachelito.Props.T07", "Cachelito.Props.T08", "Cachelito.Props.T09", "Cachelito.Props.T10", "Cachelito.Props.T11", "Cachelito.Props.T12", "Cachelito.Props.T17", "Cachelito.Props.T18"],
+        "lean_modules": ["Cachelito.Props.C01", "Cachelito.Props.C01b", "Cachelito.Props.C01c", "Cachelito.Props.T07", "Cachelito.Props.T08", "Cachelito.Props.T09", "Cachelito.Props.T10", "Cachelito.Props.T11", "Cachelito.Props.T12", "Cachelito.Props.T17", "Cachelito.Props.T17m", "Cachelito.Props.T18"],
         "streams": [core_stream(nontrivial=["hit", "re-store"]), macro_stream(nontrivial=["hit"]),
                     sched_stream(nontrivial=['served-call-source-checked'], quick=(6, 8, 60), what="L3: scheduled runs of 2-3 real threads (calls racing with stores of the same key and with invalidations): every call returns the function's value for its own arguments, and a call served from the cache has a legitimate source (a store for the same arguments that no completed invalidation separates from it)")],
         "monitors": ["C01"],
@@ -98,7 +98,7 @@ PROPS = {
         "design_ref": "DESIGN.md §7 C02", "assumptions": ["float Debug injective on non-NaN"],
     },
     "C03": {
-        "lean_modules": ["Cachelito.Props.C03", "Cachelito.Props.C03c", "Cachelito.Props.T17", "Cachelito.Props.T18"],
+        "lean_modules": ["Cachelito.Props.C03", "Cachelito.Props.C03c", "Cachelito.Props.T17", "Cachelito.Props.T17m", "Cachelito.Props.T18"],
         "streams": [macro_stream(nontrivial=["c03-call"]), hammer_stream(),
                     sched_stream(nontrivial=["c03-plain-concurrent-run", "calls-only-quiescent-check"], quick=(6, 8, 60),
                                  what="L3 calls-only programs: 2-3 real threads call ONE cache with overlapping arguments under the deterministic scheduler (switches at every lock acquisition, so lookups fall between the two halves of another thread's store); plain caches of every policy: once a storing call has returned no later call may run the body; limited caches: a stored key may vanish only from a FULL cache")],
@@ -120,7 +120,7 @@ PROPS = {
         "technique": TECH, "design_ref": "DESIGN.md §7 C14", "assumptions": [],
     },
     "C19": {
-        "lean_modules": ["Cachelito.Props.C19", "Cachelito.Props.T05", "Cachelito.Props.T17", "Cachelito.Props.T18"],
+        "lean_modules": ["Cachelito.Props.C19", "Cachelito.Props.T05", "Cachelito.Props.T17", "Cachelito.Props.T17m", "Cachelito.Props.T18"],
         "streams": [lines_stream("attrs_diff", "attrs", ["gen", "{seed}", "{n}", "{n}"], 1500, 20000,
                                  "attrs: generated attribute lists (mostly valid: every attribute present/absent, six policies, limits, ttls, max_memory in all forms and letter cases, weights, names, arrays, paths; plus a malformed stream: unknown names, typos, wrong literal kinds, out-of-set policy/scope, negative/overflowing numbers, repeated attributes with an invalid occurrence) through the REAL parse_sync_attributes / parse_async_attributes (catch_unwind) vs Attrs.parse; is_result and has_max_memory expressions copied verbatim", r"^[AR]\|"),
                     {"kind": "compile", "nontrivial": [], "what": "compile corpus through rustc: 22 invalid attribute lists (unknown names, typos, wrong literal kinds, out-of-set policy/scope, negative/float/overflowing numbers, repeated attribute with an invalid occurrence) must fail to compile with the REAL macros, 5 valid controls must compile (one cargo check --examples --keep-going)"},
@@ -143,7 +143,7 @@ PROPS = {
         "assumptions": ["limit >= 1", "sequential use (concurrency is C18)"],
     },
     "C05": {
-        "lean_modules": ["Cachelito.Props.C05", "Cachelito.Props.C05a", "Cachelito.Props.T01", "Cachelito.Props.T14", "Cachelito.Props.T15", "Cachelito.Props.T16"],
+        "lean_modules": ["Cachelito.Props.C05", "Cachelito.Props.C05a", "Cachelito.Props.T01", "Cachelito.Props.T14", "Cachelito.Props.T15", "Cachelito.Props.T16", "Cachelito.Props.T17m"],
         "streams": [core_stream(filters=[[], ["shape=crowd"]], quick=1600, thorough=30000, nontrivial=["memory-store"], what="L1 restricted to nothing: all flavours/policies, memory-aware stores with sizes around max_memory; half of the episodes in the 'crowd' shape (a bound that holds five to eight small residents, large newcomers that displace several of them in one store)"),
                     lines_stream("mem_diff", "mem", ["{seed}", "{n}"], 60, 600,
                                  "estimator: random values of 85 Rust types (String/Vec with chosen capacities, nested Option/Result/tuple/Box/Arc/Rc, CacheEntry) through the REAL estimate_memory() vs MemEst.estimate; independent footprint walk", r"\|"),
@@ -190,7 +190,7 @@ PROPS = {
         "assumptions": ["frequency_weight > 0", "scores below f64::MAX / hit counters below u64::MAX"],
     },
     "C09": {
-        "lean_modules": ["Cachelito.Props.C09", "Cachelito.Props.C09c", "Cachelito.Props.T13", "Cachelito.Props.T17", "Cachelito.Props.T18"],
+        "lean_modules": ["Cachelito.Props.C09", "Cachelito.Props.C09c", "Cachelito.Props.T13", "Cachelito.Props.T17", "Cachelito.Props.T17m", "Cachelito.Props.T18"],
         "streams": [macro_stream(nontrivial=["c09-call"]),
                     sched_stream(nontrivial=["c09-concurrent-run"], quick=(6, 8, 80), what="L3 calls-only programs on PLAIN Result functions with an impure body (one thread's calls succeed, the others' fail for the same arguments) under the deterministic scheduler: an Err is never served from the cache, and once an Ok-storing call has returned every call started later is served without running the body (a failing call that finishes late does not disturb the stored Ok)")],
         "monitors": ["C09"],
@@ -201,7 +201,7 @@ PROPS = {
         "assumptions": ["return type spelled Result<..> or std::result::Result<..>"],
     },
     "C10": {
-        "lean_modules": ["Cachelito.Props.C10", "Cachelito.Props.C09c", "Cachelito.Props.T17", "Cachelito.Props.T18"],
+        "lean_modules": ["Cachelito.Props.C10", "Cachelito.Props.C09c", "Cachelito.Props.T17", "Cachelito.Props.T17m", "Cachelito.Props.T18"],
         "streams": [macro_stream(nontrivial=["c10-call"])],
         "monitors": ["C10"],
         "rule": "generated call histories on real generated functions with logged cache_if predicates answering from a script; non-trivial = a call of a function with cache_if",
@@ -210,7 +210,7 @@ PROPS = {
         "technique": TECH, "design_ref": "DESIGN.md §7 C10", "assumptions": [],
     },
     "C11": {
-        "lean_modules": ["Cachelito.Props.C11", "Cachelito.Props.T17", "Cachelito.Props.T18"],
+        "lean_modules": ["Cachelito.Props.C11", "Cachelito.Props.T17", "Cachelito.Props.T17m", "Cachelito.Props.T18"],
         "streams": [macro_stream(nontrivial=["c11-call"])],
         "monitors": ["C11"],
         "rule": "generated call histories on real generated functions (sync global, thread-local, async) with logged invalidate_on checks whose verdict changes between calls; non-trivial = a call of a function with invalidate_on",
